@@ -43,6 +43,7 @@ def run(an: Analysis, rep):
     rep.run(r073, an, rep, enc)
     rep.run(r074, an, rep)
     rep.run(r075, an, rep, enc, cdec)
+    rep.run(r076, an, rep, enc, defs)
     rep.stats.update(an.stats([an.interp("to_json")[0], an.interp("from_json")[0]]))
 
 
@@ -392,6 +393,45 @@ def r073(an, rep, enc: FunctionInfo):
     rep.add("R07.3", f"{enc.qual}::raw int only within +-(2^53-1)", not bad and tagged_ret, loc(enc.module, ifs[0]),
             "; ".join(bad[:2]) + ": integers a JSON reader cannot represent exactly are emitted as numbers (or small ones needlessly as strings)" if bad
             else f"`{norm_src(test)}` selects exactly the integers beyond +-(2^53-1) for the string form")
+    # plain str only when it can be encoded as UTF-8 (a str holding ANY surrogate code point - lone or in a pair - cannot)
+    sarm = next(((n, b, node) for n, b, node in arms if "str" in n), None)
+    if sarm is None:
+        raise AnalysisError(f"{enc.qual}: str arm not found")
+    sbody = sarm[1]
+    tr = next((st for st in sbody if isinstance(st, ast.Try)), None)
+    bad_w = ["\ud800", "x\udfff", "\ud83d\ude00", "\udc00\ud800"]
+    if tr is not None:
+        enc_call = any(isinstance(c, ast.Call) and isinstance(c.func, ast.Attribute) and c.func.attr == "encode" and isinstance(c.func.value, ast.Name) and c.func.value.id == p
+                       and c.args and isinstance(c.args[0], ast.Constant) and str(c.args[0].value).lower().replace("-", "").replace("_", "") == "utf8" for b in tr.body for c in ast.walk(b))
+        handler_ok = any((h.type is None or {x.id for x in ast.walk(h.type) if isinstance(x, ast.Name)} & {"UnicodeEncodeError", "UnicodeError", "ValueError", "Exception"})
+                         and any(isinstance(r.value, ast.Dict) for r in returns_of(h.body)) for h in tr.handlers)
+        rep.add("R07.3", f"{enc.qual}::plain str only when UTF-8 encodable", enc_call and handler_ok, loc(enc.module, tr),
+                "value.encode('utf-8') is attempted; the UnicodeEncodeError handler returns the tagged form" if enc_call and handler_ok else
+                "the try/except around the UTF-8 encoding does not return the tagged form on failure")
+    else:
+        ifs_ = [st for st in sbody if isinstance(st, ast.If) and any(isinstance(r.value, ast.Dict) for r in returns_of(st.body))]
+        if not ifs_:
+            rep.add("R07.3", f"{enc.qual}::plain str only when UTF-8 encodable", False, loc(enc.module, sarm[2]),
+                    "the str arm has no test for strings that cannot be UTF-8 encoded: lone surrogates reach the JSON text and the document cannot be serialised")
+        else:
+            import re as _re
+            from sa.feval import callable_for_feval
+            envs = module_consts_with(an, enc.module.name, {"re_compile": callable_for_feval(_re.compile), "compile": callable_for_feval(_re.compile),
+                                                             "re.compile": callable_for_feval(_re.compile)})
+            missed = []
+            for w in bad_w:
+                e = dict(envs)
+                e[p] = w
+                try:
+                    v = feval_with_regex(ifs_[0].test, e)
+                except FevalError as ex:
+                    raise AnalysisError(f"{enc.qual}: test for non-encodable strings `{norm_src(ifs_[0].test)}` not evaluable: {ex}")
+                if not v:
+                    missed.append(w)
+            rep.add("R07.3", f"{enc.qual}::plain str only when UTF-8 encodable", not missed, loc(enc.module, ifs_[0]),
+                    f"`{norm_src(ifs_[0].test)}` is false for {[ascii(w) for w in missed]}, strings that cannot be encoded as UTF-8 (they contain surrogate code points): they are emitted as plain "
+                    f"strings, a JSON serialise/parse cycle merges a surrogate pair into one character or fails" if missed
+                    else f"`{norm_src(ifs_[0].test)}` holds for every witness string containing a surrogate code point")
     # bool: must reach the int arm (or an own arm) before any arm tagging it
     first = None
     for names, body, node in arms:
@@ -430,6 +470,65 @@ def r073(an, rep, enc: FunctionInfo):
     # unknown values raise
     raises = any(isinstance(st, ast.Raise) for st in rest)
     rep.add("R07.3", f"{enc.qual}::unknown value types raise", raises, loc(enc.module, enc.node), "fall-through raises" if raises else "an unsupported value falls through silently", nontrivial=False)
+
+
+def module_consts_with(an, modname, extra):
+    """Module constants foldable with the given callables available (e.g. compiled regular expressions)."""
+    m = an.prog.module(modname)
+    env = dict(extra)
+    for _ in range(3):
+        for name, exprs in m.assigns.items():
+            if len(exprs) == 1 and name not in env:
+                try:
+                    env[name] = feval_with_regex(exprs[0], env)
+                except Exception:
+                    pass
+    return env
+
+
+def feval_with_regex(node, env):
+    """feval plus `.search/.match/.fullmatch` on compiled patterns that are module constants (pattern literals are data)."""
+    import re as _re
+
+    class Sub(ast.NodeTransformer):
+        def visit_Call(self, n):
+            self.generic_visit(n)
+            return n
+    if isinstance(node, ast.Call) and isinstance(node.func, ast.Attribute) and node.func.attr in ("search", "match", "fullmatch", "findall"):
+        recv = feval_with_regex(node.func.value, env)
+        if isinstance(recv, _re.Pattern):
+            return getattr(recv, node.func.attr)(*[feval_with_regex(a, env) for a in node.args])
+    if isinstance(node, ast.UnaryOp) and isinstance(node.op, ast.Not):
+        return not feval_with_regex(node.operand, env)
+    if isinstance(node, ast.BoolOp):
+        vals = [feval_with_regex(v, env) for v in node.values]
+        return all(vals) if isinstance(node.op, ast.And) else any(vals)
+    if isinstance(node, ast.Compare) and len(node.ops) == 1 and isinstance(node.comparators[0], ast.Constant) and node.comparators[0].value is None:
+        l = feval_with_regex(node.left, env)
+        return (l is None) if isinstance(node.ops[0], ast.Is) else (l is not None)
+    return feval(node, env)
+
+
+# ----------------------------------------------------------------------------- R07.6
+def r076(an, rep, enc, defs):
+    """Witness documents for every tagged constant shape validate against the ConstantValue schema (all keywords, not only `type`)."""
+    from .json_model import CONSTANT_WITNESSES, validate
+    rep.rule("R07.6", "witness documents of every constant shape validate against JSON_SCHEMA (patterns, enums, lengths included)", 15)
+    node = {"$ref": "#/definitions/ConstantValue"}
+    etagsets = {frozenset(s) for s, _ in encoder_tags(enc)}
+    for name, doc in CONSTANT_WITNESSES:
+        if isinstance(doc, dict) and frozenset(doc) not in etagsets:
+            continue  # the encoder does not emit this tag (R07.1 reports tag disagreements)
+        why = validate(defs, node, doc)
+        rep.add("R07.6", f"witness::{name}", why is None, "code_data/__init__.py",
+                f"{doc!r} validates" if why is None else
+                f"the encoder emits {doc!r} for a {name} constant, but JSON_SCHEMA rejects it: {why}. to_json_data output for such programs fails validation")
+    # the same witnesses inside an operand, an additional argument and a nested code object must be reachable by the schema
+    wrapper = {"blocks": [[{"name": "LOAD_CONST", "arg": {"constant": {"int": "-9007199254740992"}}}]], "filename": "f", "first_line_number": 1, "name": "n", "stacksize": 1,
+               "_additional_args": [{"constant": {"int": "-9007199254740992"}}, {"constant": {"string": "'\\ud800'"}}]}
+    why = validate(defs, {"$ref": "#/definitions/CodeData"}, wrapper)
+    rep.add("R07.6", "witness::document with tagged constants in operands and additional args", why is None, "code_data/__init__.py",
+            "validates" if why is None else f"a whole document carrying tagged constants is rejected: {why}")
 
 
 # ----------------------------------------------------------------------------- R07.4
